@@ -413,12 +413,12 @@ func (s *scen) entries(sh []logical.VerifC15Share, data []byte) (string, bool) {
 }
 
 type observed struct {
-	line           string
-	st             logical.VerifC15State
-	gAll, rAll     bool
-	genG, genR     bool
-	generated      bool
-	ending         string
+	line       string
+	st         logical.VerifC15State
+	gAll, rAll bool
+	genG, genR bool
+	generated  bool
+	ending     string
 }
 
 func (s *scen) observe(strayKey common.Hash) observed {
@@ -676,6 +676,10 @@ func (r *runner) check(s *scen, o observed, at string) {
 		r.addViol(s, "share-sets-out-of-step", "gSign/rSign differ in size or exceed the threshold",
 			map[string]interface{}{"at": at, "state": o.line})
 	}
+	if o.generated && !(o.genG && o.genR) {
+		r.addViol(s, "invalid-block-generated", "GenerateBlock was called with signatures that do not verify under the group public key",
+			map[string]interface{}{"at": at, "state": o.line})
+	}
 	if s.foreign {
 		return // the joined-group map holds a key that is not a DKG share: recovery is not expected to work
 	}
@@ -687,10 +691,6 @@ func (r *runner) check(s *scen, o observed, at string) {
 				"threshold reached but the recovered block signature / beacon value does not verify under the group public key",
 				map[string]interface{}{"at": at, "state": o.line, "gsig_ok": g, "rsig_ok": rr})
 		}
-	}
-	if o.generated && !(o.genG && o.genR) {
-		r.addViol(s, "invalid-block-generated", "GenerateBlock was called with signatures that do not verify",
-			map[string]interface{}{"at": at, "state": o.line})
 	}
 }
 
